@@ -1005,19 +1005,20 @@ func (c *DefaultCtx) Location(path string) {
 // If no override is given or if the provided override is not a valid HTTP method, it returns the current method from the context.
 // Otherwise, it updates the context's method and returns the overridden method as a string.
 func (c *DefaultCtx) Method(override ...string) string {
-	if len(override) == 0 {
-		// Nothing to override, just return current method from context
-		return c.app.method(c.methodInt)
+	if len(override) > 0 {
+		method := utils.ToUpper(override[0])
+		if methodInt := c.app.methodInt(method); methodInt != -1 {
+			c.methodInt = methodInt
+			return method
+		}
+		// Provided override is not a valid HTTP method, no override, return current method
 	}
-
-	method := utils.ToUpper(override[0])
-	methodInt := c.app.methodInt(method)
-	if methodInt == -1 {
-		// Provided override does not valid HTTP method, no override, return current method
-		return c.app.method(c.methodInt)
+	if c.methodInt < 0 || c.methodInt >= len(c.app.config.RequestMethods) {
+		// The request method is not one of the configured methods (only error handlers and the
+		// request handler's own 501 check see such a context): report the method as it was sent.
+		return c.app.getString(c.fasthttp.Request.Header.Method())
 	}
-	c.methodInt = methodInt
-	return method
+	return c.app.method(c.methodInt)
 }
 
 // MultipartForm parse form entries from binary.
